@@ -23,12 +23,14 @@ impl Group for E2eGroup {
             l("e2e refused socks"), l("e2e reuse 6"), l("e2e reaper"),
             l("e2e badpreamble bitflip"), l("e2e badpreamble random"), l("e2e badpreamble truncated"), l("e2e badpreamble good"),
             l("e2e pushe2e"), l("e2e udp 1 100 1472 9000"), l("e2e early socks 300"),
+            l("e2e slow up direct 6000000"), l("e2e slow down socks 6000000"), l("e2e slow up socks 3000000"),
+            l("e2e blackhole all"), l("e2e noname"),
         ];
         all.into_iter().filter(|c| wanted(&c.lines[0])).collect()
     }
 
     fn generate(&self, rng: &mut Rng, _tier: &str, _idx: u64) -> Case {
-        let line = match rng.below(10) {
+        let line = match rng.below(12) {
             0..=2 => format!("e2e echo {} {} {}", rng.pick(&["socks_ip", "socks_domain", "direct", "http"]), rng.pick(&[1usize, 100, 4096, 8191, 8192, 8193, 16384, 65535, 65536, 200000, 1000000]), rng.range(1, 9)),
             3 => format!("e2e halfclose {} {}", rng.pick(&["socks", "direct"]), rng.pick(&[0usize, 1, 5000, 200000])),
             4 => format!("e2e targetclose socks {}", rng.pick(&[0usize, 1, 5000, 200000])),
@@ -36,6 +38,8 @@ impl Group for E2eGroup {
             6 => format!("e2e badpreamble {}", rng.pick(&["bitflip", "random", "truncated", "good"])),
             7 => format!("e2e udp {}", (0..rng.range(1, 5)).map(|_| rng.pick(&[1usize, 2, 100, 1472, 9000, 30000]).to_string()).collect::<Vec<_>>().join(" ")),
             8 => format!("e2e early socks {}", rng.pick(&[1usize, 300, 20000])),
+            9 => format!("e2e slow {} {} {}", rng.pick(&["up", "down"]), rng.pick(&["socks", "http", "direct"]), rng.pick(&[1_000_000usize, 3_000_000, 6_000_000, 12_000_000])),
+            10 => format!("e2e blackhole {}", rng.pick(&["socks", "http", "direct"])),
             _ => "e2e refused socks".to_string(),
         };
         if !wanted(&line) {
@@ -51,6 +55,9 @@ impl Group for E2eGroup {
                 "udp" => format!("e2e udp {}", (0..rng.range(1, 5)).map(|_| rng.pick(&[1usize, 2, 100, 1472, 9000, 30000]).to_string()).collect::<Vec<_>>().join(" ")),
                 "early" => format!("e2e early socks {}", rng.pick(&[1usize, 300, 20000])),
                 "refused" => "e2e refused socks".to_string(),
+                "slow" => format!("e2e slow {} {} {}", rng.pick(&["up", "down"]), rng.pick(&["socks", "http", "direct"]), rng.pick(&[1_000_000usize, 3_000_000, 6_000_000, 12_000_000])),
+                "blackhole" => format!("e2e blackhole {}", rng.pick(&["socks", "http", "direct"])),
+                "noname" => "e2e noname".to_string(),
                 "reaper" => "e2e reaper".to_string(),
                 _ => "e2e pushe2e".to_string(),
             };
@@ -101,6 +108,9 @@ async fn scenario(t: &[String]) -> Res {
         ["e2e", "halfclose", via, n] => halfclose(via, n.parse().map_err(|_| "n")?).await,
         ["e2e", "targetclose", "socks", n] => targetclose(n.parse().map_err(|_| "n")?).await,
         ["e2e", "refused", "socks"] => refused().await,
+        ["e2e", "slow", dir, via, n] => slow(dir, via, n.parse().map_err(|_| "n")?).await,
+        ["e2e", "blackhole", via] => blackhole_open(via).await,
+        ["e2e", "noname"] => noname().await,
         ["e2e", "reuse", n] => reuse(n.parse().map_err(|_| "n")?).await,
         ["e2e", "reaper"] => reaper().await,
         ["e2e", "badpreamble", kind] => badpreamble(kind).await,
@@ -232,6 +242,165 @@ async fn refused() -> Res {
     };
     w.stop().await;
     Ok((o, fails))
+}
+
+/// bytes through a tunnel whose far end applies back-pressure: `up` = the application writes to a target
+/// that reads slowly through a 4 KiB receive buffer (the server's outbound writes are accepted only in
+/// part); `down` = the target sends at once and the application reads slowly through a small buffer
+/// (the front-end's writes to the application are accepted only in part)
+async fn slow(dir: &str, via: &str, n: usize) -> Res {
+    let w = World::start(None, None, pool_default(), true).await?;
+    let mut fails = vec![];
+    let long = Duration::from_secs(45);
+    let open_app = |port: u16, small: bool| { let w = &w; async move {
+        match via {
+            "http" => {
+                let mut s = if small { let sock = tokio::net::TcpSocket::new_v4().map_err(|e| e.to_string())?; let _ = sock.set_recv_buffer_size(4096); sock.connect(w.http.unwrap()).await.map_err(|e| e.to_string())? } else { tokio::net::TcpStream::connect(w.http.unwrap()).await.map_err(|e| e.to_string())? };
+                s.write_all(format!("CONNECT 127.0.0.1:{port} HTTP/1.1\r\nHost: 127.0.0.1:{port}\r\n\r\n").as_bytes()).await.map_err(|e| e.to_string())?;
+                let (rep, _) = read_n(&mut s, 39, Duration::from_secs(40)).await;
+                if !rep.starts_with(b"HTTP/1.1 200") { return Err(format!("CONNECT refused: {}", String::from_utf8_lossy(&rep))); }
+                Ok::<_, String>(s)
+            }
+            _ => socks_connect_opts(w.socks.unwrap(), 1, &[127, 0, 0, 1], port, if small { Some(4096) } else { None }).await,
+        }
+    } };
+    let o;
+    if dir == "up" {
+        let target = Target::start("127.0.0.1", Mode::SlowSink).await;
+        let data = pattern(n, 11);
+        if via == "direct" {
+            let (stream, session) = w.client.create_proxy_stream(("127.0.0.1".to_string(), target.addr.port())).await.map_err(|e| e.to_string())?;
+            for chunk in data.chunks(16384) { session.write_data_frame(stream.id(), bytes::Bytes::from(chunk.to_vec())).await.map_err(|e| e.to_string())?; }
+            let _ = wait_until(long, || target.snapshot().first().map(|c| c.bytes.len() >= n).unwrap_or(false)).await;
+            drop(stream);
+        } else {
+            let mut s = open_app(target.addr.port(), false).await?;
+            let _ = tokio::time::timeout(long, s.write_all(&data)).await;
+            let _ = wait_until(long, || target.snapshot().first().map(|c| c.bytes.len() >= n).unwrap_or(false)).await;
+            drop(s);
+        }
+        // let a short tail settle, then compare
+        tokio::time::sleep(Duration::from_millis(200)).await;
+        let got = target.snapshot().first().map(|c| c.bytes.clone()).unwrap_or_default();
+        if got != data {
+            fails.push(fail("e2e_bytes_differ/tunnel_backpressure", format!("{} bytes written towards a slowly reading target, {} arrived there (first difference at {:?})", data.len(), got.len(), got.iter().zip(data.iter()).position(|(a, b)| a != b))));
+        }
+        o = format!("arrived={}", got.len());
+    } else {
+        let target = Target::start("127.0.0.1", Mode::Source(n)).await;
+        let data = src_pattern(n);
+        let mut got = vec![];
+        if via == "direct" {
+            let (stream, _session) = w.client.create_proxy_stream(("127.0.0.1".to_string(), target.addr.port())).await.map_err(|e| e.to_string())?;
+            tokio::time::sleep(Duration::from_millis(300)).await;
+            let dl = tokio::time::Instant::now() + long;
+            while got.len() < n {
+                let reader = stream.reader().clone();
+                let fut = async move { let mut g = reader.lock().await; let mut b = vec![0u8; 24 * 1024 + 7]; let r = g.read(&mut b).await; (r, b) };
+                match tokio::time::timeout_at(dl, fut).await { Ok((Ok(0), _)) | Err(_) | Ok((Err(_), _)) => break, Ok((Ok(x), b)) => got.extend_from_slice(&b[..x]) }
+            }
+        } else {
+            let mut s = open_app(target.addr.port(), true).await?;
+            tokio::time::sleep(Duration::from_millis(400)).await;
+            let mut buf = vec![0u8; 24 * 1024 + 7];
+            let dl = tokio::time::Instant::now() + long;
+            let mut reads = 0u64;
+            while got.len() < n {
+                match tokio::time::timeout_at(dl, s.read(&mut buf)).await { Ok(Ok(0)) | Err(_) | Ok(Err(_)) => break, Ok(Ok(x)) => got.extend_from_slice(&buf[..x]) }
+                reads += 1;
+                if reads % 8 == 0 { tokio::time::sleep(Duration::from_millis(2)).await; }
+            }
+        }
+        if got != data {
+            fails.push(fail("e2e_bytes_differ/tunnel_backpressure", format!("the target sent {} bytes, the slowly reading application obtained {} (first difference at {:?})", data.len(), got.len(), got.iter().zip(data.iter()).position(|(a, b)| a != b))));
+        }
+        o = format!("read={}", got.len());
+    }
+    w.stop().await;
+    Ok((o, fails))
+}
+
+/// opens towards a target that neither accepts nor refuses (the server's dial runs into its timeout);
+/// `all` = through the SOCKS5 front-end, the HTTP front-end and the direct API at the same time
+async fn blackhole_open(via: &str) -> Res {
+    let Some((addr, _l, _keep)) = blackhole().await else { return Err("accept queue could not be saturated on this host".into()) };
+    let w = World::start(None, None, pool_default(), true).await?;
+    let mut fails = vec![];
+    let vias: Vec<&str> = if via == "all" { vec!["socks", "http", "direct"] } else { vec![via] };
+    let one = |via: &'static str| { let w = &w; async move {
+        let t0 = std::time::Instant::now();
+        let verdict: Result<(), String> = match via {
+            "socks" => socks_connect(w.socks.unwrap(), 1, &[127, 0, 0, 1], addr.port()).await.map(|_| ()),
+            "http" => {
+                match tokio::net::TcpStream::connect(w.http.unwrap()).await {
+                    Err(e) => Err(e.to_string()),
+                    Ok(mut s) => {
+                        if let Err(e) = s.write_all(format!("CONNECT 127.0.0.1:{p} HTTP/1.1\r\nHost: 127.0.0.1:{p}\r\n\r\n", p = addr.port()).as_bytes()).await { Err(e.to_string()) } else {
+                            let (rep, _) = read_n(&mut s, 12, Duration::from_secs(40)).await;
+                            if rep.starts_with(b"HTTP/1.1 200") { Ok(()) } else if rep.is_empty() { Err("no reply".into()) } else { Err(format!("reply {}", String::from_utf8_lossy(&rep))) }
+                        }
+                    }
+                }
+            }
+            _ => match tokio::time::timeout(Duration::from_secs(40), w.client.create_proxy_stream(("127.0.0.1".to_string(), addr.port()))).await {
+                Err(_) => Err("no outcome".into()),
+                Ok(Ok(_)) => Ok(()),
+                Ok(Err(e)) => Err(format!("reply {e}")),
+            },
+        };
+        (via, verdict, t0.elapsed().as_secs())
+    } };
+    let mut results = vec![];
+    {
+        let mut futs = vec![];
+        for v in &vias { let v: &'static str = match *v { "socks" => "socks", "http" => "http", _ => "direct" }; futs.push(one(v)); }
+        let mut it = futs.into_iter();
+        match vias.len() {
+            3 => { let (a, b, c) = tokio::join!(it.next().unwrap(), it.next().unwrap(), it.next().unwrap()); results.extend([a, b, c]); }
+            _ => results.push(it.next().unwrap().await),
+        }
+    }
+    let mut obs = vec![];
+    for (via, verdict, secs) in results {
+        let o = match &verdict {
+            Ok(()) => { fails.push(fail(&format!("connected_reported_without_tunnel/{}", if via == "direct" { "create_proxy_stream" } else if via == "http" { "http_connect" } else { "socks5" }), format!("the open towards the black-holed target {addr} was reported as connected after {secs} s; the server never connected"))); "connected".to_string() }
+            Err(e) if e.starts_with("reply ") => "failure-reported".to_string(),
+            Err(e) if e == "no outcome" || e == "guard" || e == "no reply" => { fails.push(fail("open_never_completes/unreachable_target", format!("{via}: no outcome of the open towards the black-holed target within 40 s ({e})"))); "none".to_string() }
+            Err(e) => return Err(e.clone()),
+        };
+        obs.push(format!("{via}={o}"));
+    }
+    w.stop().await;
+    Ok((obs.join(" "), fails))
+}
+
+/// opens towards a name that does not resolve (the server cannot even dial): through the direct API and
+/// through the SOCKS5 front-end
+async fn noname() -> Res {
+    let w = World::start(None, None, pool_default(), true).await?;
+    let mut fails = vec![];
+    let name = "no-such-host.invalid";
+    let t0 = std::time::Instant::now();
+    let (r, r2) = tokio::join!(
+        async { let r = tokio::time::timeout(Duration::from_secs(45), w.client.create_proxy_stream((name.to_string(), 80))).await; (r, t0.elapsed().as_millis()) },
+        socks_connect(w.socks.unwrap(), 3, name.as_bytes(), 80));
+    let (r, ms) = r;
+    let o1 = match r {
+        Err(_) => { fails.push(fail("open_never_completes/unresolvable_target", "no outcome within 45 s".into())); "none" }
+        Ok(Ok(_)) => { fails.push(fail("connected_reported_without_tunnel/create_proxy_stream", "an unresolvable name was reported as connected".into())); "connected" }
+        Ok(Err(e)) => {
+            // the server could not connect: the opener is owed the server's reason, not its own timeout
+            if e.to_string().contains("SYNACK timeout") { fails.push(fail("failure_reason_lost/unresolvable_target", format!("the server failed to resolve {name}; the opener waited {ms} ms and got `{e}` instead of the server's reason"))); "own-timeout" } else { "failure-reported" }
+        }
+    };
+    let o2 = match r2 {
+        Ok(_) => { fails.push(fail("connected_reported_without_tunnel/socks5", "CONNECT to an unresolvable name was answered with 'succeeded'".into())); "reply=0" }
+        Err(e) if e.starts_with("reply ") => "reply=nonzero",
+        Err(e) if e == "guard" => { fails.push(fail("open_never_completes/unresolvable_target", "socks5: no reply within 40 s".into())); "none" }
+        Err(e) => return Err(e),
+    };
+    w.stop().await;
+    Ok((format!("direct={o1} socks={o2}"), fails))
 }
 
 async fn reuse(n: usize) -> Res {
